@@ -27,6 +27,7 @@ import (
 	"fmt"
 	"os"
 	"runtime"
+	"runtime/debug"
 	"sort"
 	"strings"
 	"sync"
@@ -514,7 +515,7 @@ func parallel(pool []*probe.Worker, gen func(emit func(job any) bool), f func(w 
 	n := 0
 	gen(func(job any) bool {
 		n++
-		if n%64 == 0 && r.Expired() {
+		if n%16 == 0 && (r.Expired() || time.Now().After(softDeadline)) { // the enumeration phases stop at 70% of the budget so that C and D always run
 			atomic.StoreInt32(&stop, 1)
 			return false
 		}
@@ -555,6 +556,12 @@ func main() {
 
 	L := r.QT(4, 5)
 	LReal := r.QT(2, 3)
+	var subAlpha []string // alphabet of the callee programs in Space A (nil = full flat alphabet)
+	if r.Quick() {
+		subAlpha = []string{"PA", "DA", "GA", "MV", "NT", "FL"}
+	}
+	debug.SetGCPercent(400) // executeBlock allocates a 4 MB overlay per block
+	softDeadline = time.Now().Add(time.Duration(0.7 * float64(budget(r))))
 	maxCalls := 1
 	bodyAlpha := []string{"PA", "PB", "DA", "MV", "NT", "FL", "C1", "C2"}
 	if r.Thorough() {
@@ -601,7 +608,7 @@ func main() {
 			var n, nReal int64
 			capped := parallel(pool, func(emit func(any) bool) {
 				batch := make([][]probe.Op, 0, 128)
-				probe.SpaceA(L, 2, maxCalls, func(p []probe.Op) bool {
+				probe.SpaceA(L, 2, maxCalls, subAlpha, func(p []probe.Op) bool {
 					batch = append(batch, p)
 					if len(batch) == 128 {
 						if !emit(batch) {
@@ -795,7 +802,7 @@ func main() {
 	cov["rule"] = "ExecuteResult{WriteSet,CrossHashes,Notify} and post-submit storage/event/cross-state stores == fold of the successful programs only; reads in tx j == committed effects of successful tx<j plus own writes"
 	cov["spaces"] = spaceCount
 	cov["phase_seconds"] = phase
-	cov["bounds"] = map[string]any{"A_max_len": L, "A_sub_len": 2, "A_max_calls": maxCalls, "B_body_alphabet": bodyAlpha, "B_body_len": 2,
+	cov["bounds"] = map[string]any{"A_max_len": L, "A_sub_len": 2, "A_sub_alphabet": subAlpha, "A_max_calls": maxCalls, "B_body_alphabet": bodyAlpha, "B_body_len": 2,
 		"B_bodies": len(bodies), "B3_body_alphabet": body3Alpha, "B3_bodies": len(bodies3), "A_ExecuteBlock_max_len": LReal, "block_sizes": "1,2,3", "prestates": len(prestates), "workers": nW}
 	cov["states"] = blocksRun           // distinct blocks executed (each from a committed pre-state)
 	cov["transitions"] = txsRun         // transactions executed by the real executeBlock
@@ -807,6 +814,28 @@ func main() {
 }
 
 var mixedBlocks, committedBlocks int64
+var softDeadline time.Time
+
+func budget(r *ev.Run) time.Duration {
+	for i, a := range os.Args {
+		if a == "--budget" || a == "-budget" {
+			if i+1 < len(os.Args) {
+				if d, err := time.ParseDuration(os.Args[i+1]); err == nil && d > 0 {
+					return d
+				}
+			}
+		}
+		if strings.HasPrefix(a, "--budget=") || strings.HasPrefix(a, "-budget=") {
+			if d, err := time.ParseDuration(a[strings.Index(a, "=")+1:]); err == nil && d > 0 {
+				return d
+			}
+		}
+	}
+	if r.Quick() {
+		return 4 * time.Minute
+	}
+	return 40 * time.Minute
+}
 
 func init() {
 	_ = os.Getenv
